@@ -235,15 +235,19 @@ def x09(ctx):
     ctx.rule = ("MC: the finder of src/utils.rs as the state machine of the code, stepped on every sequence of up to %d weights 0-3 x "
                 "limits 0-6 x {sum, padded}: no step evaluates an empty window (slice panic), the emitted windows are at every moment a "
                 "prefix of the maximal fitting windows by start, at the end all of them, every value that fits on its own is covered, "
-                "starts and ends grow strictly, the machine ends; run-length coding is the one encoding into non-empty runs with "
+                "starts and ends grow strictly, the machine ends (negative control: a non-monotone size function breaks it); run-length coding is the one encoding into non-empty runs with "
                 "differing neighbours. A: every sequence up to %d x limit 0-7 x both size functions through the real finder, every text "
                 "of up to %d characters of 1-4 bytes x byte limit 0-9 / character limit through possible_byte_substrings / "
                 "possible_character_substrings (both cluster modes), every sequence over three values through run_length_encode / "
                 "decode / accumulate, every list of <= 3 (value, count 0-2) pairs through run_length_decode; B: random (longer, "
                 "larger weights, weights in units of 100 000). non-trivial = two or more windows / a run of two or more" % (ml + 1, ml, ml - 1))
     ctx.assumptions = ["size functions are monotone (sum of weights, largest weight x count): the two the library passes in"]
-    vlib.mc(ctx, "MC_KWindows", "CONSTANTS MaxLen = %d MaxW = 3 MaxK = 6\nSPECIFICATION Spec\nINVARIANTS TypeOK WindowNonEmpty OutIsPrefix DoneIsAll "
-            "Covering Increasing RleIsTheEncoding\nPROPERTY Terminates\nCHECK_DEADLOCK FALSE\n" % (ml + 1 if not q else ml), name="MC_KWindows", workers=8)
+    vlib.mc(ctx, "MC_KWindows", "CONSTANTS MaxLen = %d MaxW = 3 MaxK = 6 Fs = {\"sum\", \"padded\"}\nSPECIFICATION Spec\nINVARIANTS TypeOK WindowNonEmpty "
+            "OutIsPrefix DoneIsAll Covering Increasing RleIsTheEncoding\nPROPERTY Terminates\nCHECK_DEADLOCK FALSE\n" % (ml + 1 if not q else ml),
+            name="MC_KWindows", workers=8)
+    # negative control: with a size function that is not monotone (the weight of the last value) the emitted windows are not the maximal ones
+    vlib.mc(ctx, "MC_KWindows", "CONSTANTS MaxLen = 3 MaxW = 2 MaxK = 2 Fs = {\"last\"}\nSPECIFICATION Spec\nINVARIANTS OutIsPrefix DoneIsAll\n"
+            "CHECK_DEADLOCK FALSE\n", name="MC_KWindows-nonmonotone", workers=2, coverage=False, expect_violation="OutIsPrefix|DoneIsAll")
     gcfg = "CONSTANTS MaxLen = %d\nINIT Init\nNEXT Next\nCHECK_DEADLOCK FALSE\n" % ml
     keys = ["kind", "v", "k", "f", "out", "e", "enc"]
     for fam in ("find", "text", "code"):
